@@ -226,6 +226,37 @@ func init() {
 		}
 		return nil
 	})
+	// c17-wt: the well-typedness predicate itself, Go (goWT) vs Lean (WT), on real rewriter outputs
+	register("c17-wt", func(args map[string]string, out *bufio.Writer) error {
+		n := argInt(args, "n", 200)
+		seed := argInt(args, "seed", 1)
+		tier := args["tier"]
+		if tier == "" {
+			tier = "quick"
+		}
+		defer os.RemoveAll(c17WorkDir())
+		for i := 0; i < n; i++ {
+			c := caseID{seed: seed, idx: i, mode: "v", tier: tier}
+			cs := c17Gen17(c)
+			if anyAliasCycle(cs.schemas) {
+				continue
+			}
+			bs, pm := runFromAST(cs.schemas)
+			if pm != "" {
+				continue
+			}
+			rw, _, loadErr, decodeErr := loadVeneers(cs.files)
+			if loadErr != nil || decodeErr != nil {
+				continue
+			}
+			res, status := runApplyTo(rw, cs.schemas, bs, cs.language)
+			if status != "ok" {
+				continue
+			}
+			fmt.Fprintf(out, "wt %s %s\t%s\tok\t%s\n", virSchemas(cs.schemas), virBuilders(res), goWTBits(cs.schemas, res), c.String())
+		}
+		return nil
+	})
 	register("c17-eval", func(args map[string]string, out *bufio.Writer) error {
 		c, err := parseCaseID(args["case"])
 		if err != nil {
